@@ -614,12 +614,14 @@ def _rand_point(rng, ec):
 
 def _run_jac(ctx, rng):
     """jac.add / addaff / dbl: all toy curves, all pairs of representatives"""
-    full_p = 7 if ctx.tier == "quick" else 13
+    full_p = 7 if ctx.tier == "quick" else 11
     pmax = 31 if ctx.tier == "quick" else 101
     lines_add, lines_aff, lines_dbl = [], [], []
     for p, a, b in all_toy_params(pmax):
-        if ctx.tier == "quick" and p > 13 and rng.random() < 0.75:
-            continue  # quick: every p <= 31, a seeded quarter of the (a, b) above 13; thorough: all
+        if ctx.tier == "quick" and p > 13 and rng.random() < 0.9:
+            continue  # quick: every p <= 31, every (a, b) up to 13 and a seeded tenth of them above
+        if ctx.tier != "quick" and p > 31 and rng.random() > 40 / (p * p):
+            continue  # thorough: every (a, b) up to p = 31, some forty seeded curves for each p up to 101
         pts = toy_points(p, a, b)
         tok = tok_group(p, a, b)
         scal = [1, 2 % p or 1, 3 % p or 1] if p > 3 else [1, 2]
@@ -642,7 +644,7 @@ def _run_jac(ctx, rng):
             lines_add.append(f"ec.addjac {tok} {Q[0]} {Q[1]} {Q[2]} {R[0]} {R[1]} {R[2]}")
             if R[2] in (0, 1):
                 lines_aff.append(f"ec.addjacaff {tok} {Q[0]} {Q[1]} {Q[2]} {R[0]} {R[1] if R[2] else 0}")
-        for Q in reps:
+        for Q in (reps if p <= 13 or ctx.tier != "quick" else rng.sample(reps, min(len(reps), 24))):
             lines_dbl.append(f"ec.dbljac {tok} {Q[0]} {Q[1]} {Q[2]}")
     ctx.stream("jac.add", lines_add)
     ctx.stream("jac.addaff", lines_aff)
@@ -685,8 +687,10 @@ def _run_toy_ladders(ctx, rng):
     dlines, mlines = [], []
     params = list(all_toy_params(pmax))
     if ctx.tier == "quick":
-        # all curves with p <= 7 (issue 171), a seeded third of the rest
+        # all curves with p <= 7 (issue 171), a seeded eighth of the rest
         params = [q for q in params if q[0] <= 7] + [q for q in params if q[0] > 7 and rng.random() < 0.12]
+    else:
+        params = [q for q in params if q[0] <= 13] + [q for q in params if q[0] > 13 and rng.random() < 0.1]
     n_sub = 0
     for p, a, b in params:
         tc = toy_curve(p, a, b)
@@ -750,7 +754,7 @@ def _run_catalogue_ladders(ctx, rng):
             ws = {"reg": [1, 4, 7], "fb": [4, 6], "wnaf": [1, 2, 5], "fw": [1, 4], "fwc": [4, 5], "fwpos": [4],
                   "slide": [1, 4, 5]}.get(alg, [0])
             for w in ws:
-                k = 3 if (quick and (big or alg not in ("mult", "reg"))) else (len(scal) if not big else 8)
+                k = (3 if (big or alg != "mult") else 10) if quick else (len(scal) if not big else 8)
                 if quick and alg == "fb":
                     k = 1
                 for m in rng.sample(scal, min(k, len(scal))):
@@ -883,7 +887,7 @@ def _run_entry(ctx, rng, pub):
         scal = scalar_classes(rng, n, ec.nlen) + [-1, -n, -n - 5]
         big = ec.nlen > 300
         P = _rand_point(rng, ec)
-        k = (2 if big else 4) if ctx.tier == "quick" else len(scal)
+        k = (1 if big else 3) if ctx.tier == "quick" else len(scal)
         for m in rng.sample(scal, min(k, len(scal))):
             Q = rng.choice([ec.G, P, P, INF])
             lam = rng.randrange(1, ec.p)
